@@ -99,6 +99,7 @@ type loopInfo struct {
 
 type Enc struct {
 	curClause *SExpr
+	callLog []callRec // interface-method calls answered by a contract (for replay stubs)
 	retHook func(st *State, res *Val)
 	outerSyms map[string]string
 	privMemo map[*ssa.Alloc]bool
@@ -1763,4 +1764,13 @@ func (e *Enc) staticComp(v ssa.Value) string {
 		return ""
 	}
 	return ""
+}
+
+// callRec: one call of an interface method that was answered by its contract.
+type callRec struct {
+	iface  types.Type // static interface type of the receiver
+	method string
+	reach  string // path condition at the call
+	res    *Val
+	sig    *types.Signature
 }
